@@ -2,7 +2,7 @@
    Only ExtrOcamlBasic is used: bool, option, unit, list, prod, sumbool, sumor map to OCaml's;
    andb/orb are inlined.  N, positive, nat, byte, comparison stay Coq inductives. *)
 From Coq Require Extraction ExtrOcamlBasic.
-From RsdnsModel Require Import Base GenConst GenCursor GenLabels GenNames GenHeader Cursor Names Labels Header Tracker RData Reader Script.
+From RsdnsModel Require Import Base GenConst GenCursor GenLabels GenNames GenHeader Cursor Names Labels Header Tracker RData Reader Script Iter RecordSet.
 From RsdnsModel.Spec Require WireName.
 Extraction Language OCaml.
 Extraction "model.ml"
@@ -10,5 +10,5 @@ Extraction "model.ml"
   Cursor.c_new Cursor.c_with_pos
   Names.check_label_bytes Names.check_name_bytes Names.name_from_str Names.name_eq Names.name_cmp
   Names.name_hash_feed Names.name_eq_str
-  Labels.read_name Labels.skip_name Labels.labels_drain Labels.nameref_eq Labels.name_fuel Script.world_init Script.run_script Script.step GenHeader.opt_dnssec_ok N.div N.modulo
+  Labels.read_name Labels.skip_name Labels.labels_drain Labels.nameref_eq Labels.name_fuel Script.world_init Script.run_script Script.step GenHeader.opt_dnssec_ok N.div N.modulo Iter.iter_new Iter.iter_questions Iter.iter_records RecordSet.from_msg
   WireName.spec_name WireName.label_ok WireName.join_labels WireName.wire_len.
